@@ -7,7 +7,7 @@ CONSTANTS
   DomSw <- SwDomSmall
   MaxComps = 1
   DomInvalid <- NoInvalid
-INVARIANTS MandatorySetImpliesValid ValidIffGetters ValidThenMandatoryGettersOK ErrorsClassified
-PROPERTIES SetterAgrees SetterStores AtomicOnFailure OnlyTargetChanges ReadOpsPure
+INVARIANTS MandatorySetImpliesValid ValidIffGetters ValidThenMandatoryGettersOK
+PROPERTIES SetterAgrees SetterStores AtomicOnFailure OnlyTargetChanges ReadOpsPure ErrorsClassifiedStep
 VIEW View
 CHECK_DEADLOCK FALSE
